@@ -171,7 +171,8 @@ func (cl *Loader) load(file string) (config map[string]interface{}, err error) {
 				if cl.imports[importFile] {
 					continue
 				}
-				fi, err := os.Stat(importFile)
+				var fi os.FileInfo
+				fi, err = os.Stat(importFile)
 				if err != nil {
 					return nil, fmt.Errorf("%s: %v", importFile, err)
 				}
@@ -179,9 +180,6 @@ func (cl *Loader) load(file string) (config map[string]interface{}, err error) {
 					raw, err = cl.load(importFile)
 				} else {
 					raw, err = cl.loadDir(importFile)
-				}
-				if err != nil {
-					logrus.Error(err)
 				}
 			}
 			if err != nil {
